@@ -142,6 +142,11 @@ def main(argv=None):
                 continue
             seen.add(v["replay"])
             print("VIOLATION property=%s replay=%s  %s" % (ctx.prop, v["replay"], json.dumps(v["sig"], sort_keys=True)))
+        hist = {}
+        for v in ctx.violations:
+            key = "%s @ %s" % (v["sig"].get("clause"), v["sig"].get("member_kind") or v["sig"].get("node") or v["sig"].get("top") or v["sig"].get("op") or "-")
+            hist[key] = hist.get(key, 0) + 1
+        print("SUMMARY " + "; ".join("%s x%d" % kv for kv in sorted(hist.items(), key=lambda kv: -kv[1])[:40]))
         print("%s: %d violation(s) in %d evaluations" % (ctx.prop, len(ctx.violations), ctx.cov["evaluations"]))
         return 1
     print("%s %s: held on %d evaluations (%d non-trivial), %d TLC states, %.1fs" %
